@@ -34,6 +34,8 @@ func c15Modes(mode string) []gtree.Option {
 		return []gtree.Option{gtree.WithEncodeTOML()}
 	case "dry":
 		return []gtree.Option{gtree.WithDryRun(), gtree.WithFileExtensions([]string{"b"})}
+	case "massive":
+		return extraOpts("massive", "")
 	}
 	return nil
 }
@@ -288,6 +290,62 @@ func init() {
 							gaps[pos] = g
 							idx++
 							c15Check(c, cn, d, names, enum.Spelling{Unit: unit, Bullets: []byte("-*"), Heading: ui%2 == 1 && g%4 == 0, Gaps: gaps, CRLF: g%4 == 0 && pos%2 == 0}, idx)
+						}
+					}
+				}
+			})
+		}
+		// Part 2d: white-space-only lines made of other white space than blanks and tabs (form feed, vertical tab, every
+		// Unicode space; enum.ExoticBlanks), one such line at every position of every forest with up to four nodes, every
+		// unit; text output, and for single roots also text output with the massive option (the order is fixed there)
+		for n := 1; n <= 4 && !c.Expired(); n++ {
+			enum.DepthSeqs(n, func(d0 []int) {
+				d := append([]int{}, d0...)
+				roots := 0
+				for _, x := range d {
+					if x == 1 {
+						roots++
+					}
+				}
+				if !c.Take() || c.Expired() {
+					return
+				}
+				names := make([]string, n)
+				for i := range names {
+					names[i] = string(rune('a' + i%3))
+				}
+				cn := &c15Canon{doc: enum.Spell(d, names, enum.Canonical), out: map[string]string{}, roots: roots}
+				c.StateN(1)
+				c.Inc("exotic_blank_forests")
+				for ui, unit := range c15Units {
+					for pos := 0; pos <= n; pos++ {
+						for g := 9; g < 9+len(enum.ExoticBlanks); g++ {
+							gaps := make([]int, n+1)
+							gaps[pos] = g
+							sp := enum.Spelling{Unit: unit, Bullets: []byte("-*"), Gaps: gaps, CRLF: (g+pos)%4 == 0, NoFinal: (g+ui)%5 == 0}
+							idx++
+							c15Check(c, cn, d, names, sp, idx|1) // (text only; the other modes follow below on a slice)
+							if (g+pos+ui)%8 == 0 {
+								c15Check(c, cn, d, names, sp, 16)
+							}
+							if roots == 1 {
+								doc := enum.Spell(d, names, sp)
+								want, ok := cn.out["massive"]
+								if !ok {
+									var o string
+									var e error
+									p := guardMaybeMassive(true, func() { o, e, _ = sut.Output(cn.doc, extraOpts("massive", "")...) })
+									want = fmt.Sprintf("panic=%v err=%v out=%q", p != "", e, o)
+									cn.out["massive"] = want
+								}
+								var o string
+								var e error
+								p := guardMaybeMassive(true, func() { o, e, _ = sut.Output(doc, extraOpts("massive", "")...) })
+								c.Eval()
+								if got := fmt.Sprintf("panic=%v err=%v out=%q", p != "", e, o); got != want {
+									c.Violation("C15|spelling-changes-result|text-massive", fmt.Sprintf("canonical=%q -> %s\nspelling=%q -> %s", cn.doc, want, doc, got), len(doc), c15Replay{"c15", cn.doc, doc, "massive"})
+								}
+							}
 						}
 					}
 				}
